@@ -143,7 +143,7 @@ def import_round(wt, pid, first_index):
         notes = open(os.path.join(src, "notes%d.md" % i)).read()
         open(os.path.join(d, "notes.md"), "w").write(notes)
         c = confirm(d)
-        meta = {"id": sid, "property": pid, "round": 2,
+        meta = {"id": sid, "property": pid, "round": (first_index + 1) // 2,
                 "source": "independent sub-agent given only the property text, a list of mechanisms already used in round 1, and a scratch worktree",
                 "needs_to_manifest": notes[:2500],
                 "confirmed_by": "tools_seeded.py confirm (scratch worktree of /repo HEAD, private TMPDIR): suite with patch, demo without and with patch",
